@@ -281,14 +281,33 @@ def check(prog, rep, tier):
                 key='Update.parse-returns')
     pa = prog.func('yabgp.message.update.Update.parse_attributes')
     bad = None
+    halfinit = None
     for t in [n for n in ast.walk(pa.node) if isinstance(n, ast.Try)]:
         for h in t.handlers:
             for n in ast.walk(ast.Module(body=h.body, type_ignores=[])):
                 if isinstance(n, ast.Raise):
+                    # a bare `raise` (or `raise e`) in a handler that catches UpdateMessageError only re-raises one
+                    only_ume = h.type is not None and _handler_names(h) == {'UpdateMessageError'}
+                    same = n.exc is None or (isinstance(n.exc, ast.Name) and n.exc.id == h.name)
+                    if same and only_ume:
+                        # the caught object itself travels on to Update.parse, which reads e.sub_error / e.data:
+                        # fine as long as the constructor cannot leave those unset
+                        culprit = exception_init_gap(prog)
+                        if culprit is not None:
+                            halfinit = (n, culprit)
+                        continue
                     if n.exc is None or 'UpdateMessageError' not in src_of(n.exc):
                         bad = n
     whole = [s for s in pa.node.body if isinstance(s, ast.Try)]
-    if bad is not None:
+    if halfinit is not None:
+        n, (cf, cst) = halfinit
+        rep.bad('R11.d', 'parse_attributes', file=pa.file, line=n.lineno, func=pa.qualname,
+                found='the handler re-raises the caught UpdateMessageError object, and %s can leave it without '
+                      'sub_error / data: `%s` (line %d) may raise before they are assigned and the constructor swallows '
+                      'that - Update.parse then fails with AttributeError on e.sub_error' % (
+                          cf.qualname, src_of(cst)[:80], cst.lineno),
+                expected='a fully initialised exception reaches Update.parse', key='parse_attributes')
+    elif bad is not None:
         rep.bad('R11.d', 'parse_attributes', file=pa.file, line=bad.lineno, func=pa.qualname,
                 found='handler raises %s' % src_of(bad), expected='only UpdateMessageError', key='parse_attributes')
     elif not whole or not any(catch_all_or_reraise_ume(t) for t in whole):
@@ -321,6 +340,53 @@ def analyse(prog, f, ws, obs, depth):
         return None
     except AnalysisError as e:
         return str(e)
+
+
+def _cannot_raise(st):
+    """Statements of an exception constructor that cannot raise: plain copies and %-formatting with %(name)s."""
+    if isinstance(st, ast.Assign):
+        v = st.value
+        if isinstance(v, (ast.Name, ast.Constant, ast.Attribute)):
+            return True
+        if isinstance(v, ast.BinOp) and isinstance(v.op, ast.Mod) and isinstance(v.left, (ast.Attribute, ast.Name, ast.Constant)):
+            return True
+    if isinstance(st, ast.Expr) and isinstance(st.value, ast.Constant):
+        return True
+    return False
+
+
+def exception_init_gap(prog):
+    """(FuncInfo, statement) when a constructor of the NotificationSent family assigns self.sub_error / self.data
+    inside a try whose handler swallows, after a statement that may raise; None when every constructed exception
+    carries both attributes."""
+    base = prog.cls('yabgp.common.exception.NotificationSent')
+    for m in prog.modules.values():
+        for c in m.classes.values():
+            if c is not base and not c.is_subclass_of(base.qualname):
+                continue
+            f = c.methods.get('__init__')
+            if f is None:
+                continue
+            for t in [n for n in ast.walk(f.node) if isinstance(n, ast.Try)]:
+                swallows = any(not (h.body and isinstance(h.body[-1], ast.Raise) and len(h.body) == 1) for h in t.handlers)
+                if not swallows:
+                    continue
+                pending = None
+                for st in t.body:
+                    sets = isinstance(st, ast.Assign) and any(
+                        isinstance(x, ast.Attribute) and x.attr in ('sub_error', 'data') and src_of(x.value) == 'self'
+                        for x in st.targets)
+                    if sets and pending is not None:
+                        return (f, pending)
+                    if not sets and not _cannot_raise(st) and pending is None:
+                        pending = st
+    return None
+
+
+def _handler_names(h):
+    t = h.type
+    elts = t.elts if isinstance(t, ast.Tuple) else [t]
+    return set(src_of(e).split('.')[-1] for e in elts)
 
 
 def catch_all_or_reraise_ume(t):
